@@ -8,10 +8,13 @@ import vlib
 
 SPEC = "DsdTelemetry"
 INV = ("TypeOK TelSums TelDropSplit RoundPackets HistPointsAreValues Contexts ExactlyOnce NothingLost TelVsSocket "
-       "SocketConservation TelemetryOff LazyInit FeedbackReg")
+       "SocketConservation Attempts TelemetryOff LazyInit FeedbackReg")
 KNOWN = {"XF01a": "XF01a"}
 XF01A_WHAT = ("a round that flushed contexts / sent or dropped packets / had serializer drops but counted zero points is not "
               "applied to the telemetry counters (TelemetryUpdate::had_updates looks at the point counts only)")
+# X01_GATE_REPAIRED=1: check a tree in which had_updates() looks at every field (notes/x01_fix_XF01a.diff): the
+# conformance specs use GateOnPoints = FALSE and the strict law (no deviation allowed)
+REPAIRED = os.environ.get("X01_GATE_REPAIRED") == "1"
 REAL = dict(CK="{1,2,3,4}", GK="{11,12,13}", HK="{21,22,23}", BigKeys="{4,13,23}", TightH="{22}", HCap=2, BS=64)
 
 
@@ -40,7 +43,10 @@ def tf(b):
 
 def trace_cfg(group):
     s, t, fb = [int(x) for x in group.split("_")]
-    return cfg("tr_" + group, spec="TraceSpec", inv=INV.replace("RoundPackets", "RoundPacketsT"), props=None, post=True,
+    inv = INV.replace("RoundPackets", "RoundPacketsT")
+    if REPAIRED:
+        inv = inv.replace("NothingLost", "StrictNothingLost")
+    return cfg("tr_" + group, spec="TraceSpec", inv=inv, props=None, post=True, GateOnPoints=tf(not REPAIRED),
                Stream=tf(s), TelemetryOn=tf(t), Feedback=tf(fb), MaxRounds=100000, MaxOps=100000, MaxRestarts=100000,
                MaxStalls=100000, Lens="{1}", IncVals="{0}", **REAL)
 
@@ -87,20 +93,20 @@ def run(chk):
            ("stream_stall", dict(Stream="TRUE", MaxStalls=1, MaxOps=2, CK="{1}", BigKeys="{}", IncVals="{1}"), set()),
            ("feedback", dict(Feedback="TRUE", AnyOrder="FALSE", MaxRestarts=0, MaxRounds=3, MaxOps=2, CK="{1}", BigKeys="{11}",
                              HK="{}", TightH="{}", IncVals="{1}"),
-            {"AgentDown", "AgentUp", "AgentStall", "AgentResume", "SendRefused", "SendTimeout", "Record"}),
-           ("telemetry_off", dict(TelemetryOn="FALSE", MaxOps=2, MaxRestarts=0), {"AgentDown", "AgentUp", "AgentStall", "AgentResume", "SendRefused", "SendTimeout"}),
+            {"AgentDown", "AgentUp", "AgentStall", "AgentResume", "SendRefusedA", "SendTimeoutA", "Record"}),
+           ("telemetry_off", dict(TelemetryOn="FALSE", MaxOps=2, MaxRestarts=0), {"AgentDown", "AgentUp", "AgentStall", "AgentResume", "SendRefusedA", "SendTimeoutA"}),
            ("gate_repaired", dict(GateOnPoints="FALSE", MaxRestarts=0, inv=INV.replace("NothingLost", "StrictNothingLost")),
-            {"AgentDown", "AgentUp", "AgentStall", "AgentResume", "SendRefused", "SendTimeout"})]
+            {"AgentDown", "AgentUp", "AgentStall", "AgentResume", "SendRefusedA", "SendTimeoutA"})]
     if thorough:
         mcs += [("dgram_restart_deep", dict(MaxRounds=3, MaxOps=4), set()),
                 ("stream_stall_restart", dict(Stream="TRUE", MaxStalls=1, MaxOps=3, Lens="{1,2}"), set()),
                 ("feedback_faults", dict(Feedback="TRUE", AnyOrder="FALSE", MaxRestarts=1, MaxRounds=3, MaxOps=2, CK="{1}", BigKeys="{}",
                                          GK="{}", HK="{}", TightH="{}", IncVals="{1}"),
-                 {"AgentStall", "AgentResume", "SendTimeout", "Record", "RegG", "SetG"})]
+                 {"AgentStall", "AgentResume", "SendTimeoutA", "Record", "RegG", "SetG"})]
     for name, kw, exempt in mcs:
         kw = dict(kw)
         inv = kw.pop("inv", INV)
-        exempt = set(exempt) | ({"AgentStall", "AgentResume", "SendTimeout"} if kw.get("MaxStalls", 0) == 0 else set())
+        exempt = set(exempt) | ({"AgentStall", "AgentResume", "SendTimeoutA"} if kw.get("MaxStalls", 0) == 0 else set())
         r = vlib.tlc_mc(SPEC, SPEC, cfg(name, inv=inv, **kw), workers=8, timeout=3000, tag=name)
         if not chk.expect_mc_ok(r, "DsdTelemetry/" + name, vacuity_exempt=exempt):
             return
@@ -136,7 +142,7 @@ def run(chk):
         for name, kw in (("sim_dgram", dict()), ("sim_stream", dict(Stream="TRUE")),
                          ("sim_feedback", dict(Feedback="TRUE", MaxRestarts=1, MaxOps=5)),
                          ("sim_off", dict(TelemetryOn="FALSE", Stream="TRUE"))):
-            simkw = dict(REAL, AnyOrder="FALSE", MaxRounds=3, MaxOps=8, MaxRestarts=2, MaxStalls=0, Lens="{10}", IncVals="{0,1,2}")
+            simkw = dict(REAL, GateOnPoints=tf(not REPAIRED), AnyOrder="FALSE", MaxRounds=3, MaxOps=8, MaxRestarts=2, MaxStalls=0, Lens="{10}", IncVals="{0,1,2}")
             simkw.update(kw)
             c = cfg(name, spec="SimSpec", inv="Emit", props=None, **simkw)
             r = vlib.tlc_mc(SPEC, "SimDsdTelemetry", c, workers=1, timeout=600, coverage=False, tag=name,
